@@ -33,6 +33,36 @@ STD = [("bufio", "*bufio.Reader"), ("bytes", "*bytes.Buffer"), ("context", "cont
        ("os", "os.FileInfo"), ("regexp", "*regexp.Regexp"), ("sort", "sort.Interface"),
        ("strings", "*strings.Builder"), ("sync", "*sync.Mutex"), ("time", "time.Duration")]
 BASIC = ["int", "string", "[]byte", "map[string]int", "bool"]
+# Helper packages of the generated module: two pairs of DIFFERENT packages with the SAME package
+# name, and a generic type.  rel dir -> (package name, alias used in the sources, body)
+HELPERS = {
+    "api/core/v1": ("v1", "corev1", "type Pod struct{ Name string }\n"),
+    "api/apps/v1": ("v1", "appsv1", "type Deployment struct{ Name string }\n"),
+    "x/http": ("http", "xhttp", "type T struct{ N int }\n"),
+    "y/http": ("http", "yhttp", "type T struct{ N int }\n"),
+    "gen": ("gen", "gen", "type Pair[K comparable, V any] struct {\n\tKey K\n\tVal V\n}\n"),
+}
+# ONE parameter/result type that names several same-named packages: the qualifiers the mock
+# must invent (v1 / v10, http / http0) are handed out while walking the type, so they must not
+# depend on any map order (map key/value, func param/result, struct fields, type arguments)
+TWIN_TYPES = [
+    (["api/core/v1", "api/apps/v1"], "map[corev1.Pod]appsv1.Deployment"),
+    (["x/http", "y/http"], "func(a xhttp.T) yhttp.T"),
+    (["api/apps/v1", "api/core/v1"], "struct {\n\t\tA appsv1.Deployment\n\t\tB corev1.Pod\n\t}"),
+    (["gen", "x/http", "y/http"], "gen.Pair[xhttp.T, yhttp.T]"),
+    (["gen", "api/core/v1", "api/apps/v1"], "*gen.Pair[corev1.Pod, []appsv1.Deployment]"),
+    (["y/http", "x/http"], "chan map[yhttp.T][]xhttp.T"),
+    (["api/core/v1", "api/apps/v1", "x/http", "y/http"], "map[corev1.Pod]func(appsv1.Deployment, xhttp.T) yhttp.T"),
+]
+
+
+def hpath(rel):
+    return "%s/%s" % ("ex.test/c6", rel)
+
+
+def twin(rng):
+    rels, t = rng.choice(TWIN_TYPES)
+    return ([hpath(r) for r in rels], t)
 # complete (as `go mod tidy` writes it) so that the go command, which runs with -mod=mod inside
 # packages.Load, has nothing to add once generated mocks import testify
 GO_MOD = ("module %s\n\ngo 1.23\n\nrequire github.com/stretchr/testify v1.10.0\n\nrequire (\n"
@@ -43,7 +73,7 @@ SCHEMA_ANY = {"type": "object"}
 
 
 # ------------------------------------------------------------------ source tree
-def gen_iface(rng, name, wide=False):
+def gen_iface(rng, name, wide=False, twins=False):
     ms = []
     for mi in range(rng.randint(3, 4) if wide else rng.randint(1, 3)):
         n = rng.randint(4, 5) if wide else rng.randint(0, 3)
@@ -54,6 +84,10 @@ def gen_iface(rng, name, wide=False):
     if wide:        # make sure one file needs at least 12 different imports
         allp = [STD[i] for i in range(13)]
         ms.append({"name": "All", "params": allp, "results": []})
+    ntw = 3 if wide else (1 if (twins and rng.random() < 0.85) else 0)
+    for ti in range(ntw):
+        res = [twin(rng)] if rng.random() < 0.4 else []
+        ms.append({"name": "Twin%d" % ti, "params": [twin(rng)] + ([rng.choice(STD)] if rng.random() < 0.5 else []), "results": res})
     return {"name": name, "methods": ms}
 
 
@@ -61,16 +95,20 @@ def iface_imports(i):
     out = []
     for m in i["methods"]:
         for pth, _ in m["params"] + m["results"]:
-            if pth and pth not in out:
-                out.append(pth)
+            for q in ([] if not pth else ([pth] if isinstance(pth, str) else pth)):
+                if q not in out:
+                    out.append(q)
     return out
+
+
+HELPER_ALIAS = {"ex.test/c6/" + rel: v[1] for rel, v in HELPERS.items()}
 
 
 def go_source(pkgname, decls):
     imps = sorted({p for d in decls for p in iface_imports(d)})
     s = "package %s\n\n" % pkgname
     if imps:
-        s += "import (\n" + "".join('\t"%s"\n' % p for p in imps) + ")\n\n"
+        s += "import (\n" + "".join(('\t%s "%s"\n' % (HELPER_ALIAS[p], p)) if p in HELPER_ALIAS and HELPER_ALIAS[p] != p.split("/")[-1] else ('\t"%s"\n' % p) for p in imps) + ")\n\n"
     for d in decls:
         s += "type %s interface {\n" % d["name"]
         for m in d["methods"]:
@@ -91,7 +129,7 @@ def gen_tree(rng):
     for k in range(14):
         n = "f%02d" % k
         up = n.upper()
-        files = [{"name": "c_%s.go" % n, "decls": [gen_iface(rng, up + "A")]},
+        files = [{"name": "c_%s.go" % n, "decls": [gen_iface(rng, up + "A", twins=True)]},
                  {"name": "n_%s.go" % n, "decls": [gen_iface(rng, up + "B")]}]
         if rng.random() < 0.6:
             files.append({"name": "t_%s.go" % n, "decls": [gen_iface(rng, up + "C")]})
@@ -105,7 +143,7 @@ def gen_tree(rng):
             p = r + sfx
             n = p.split("/")[-1]
             tag = p.replace("/", "").upper()
-            pk.append({"path": p, "name": n, "files": [{"name": "c_%s.go" % n, "decls": [gen_iface(rng, tag + "A")]},
+            pk.append({"path": p, "name": n, "files": [{"name": "c_%s.go" % n, "decls": [gen_iface(rng, tag + "A", twins=True)]},
                                                        {"name": "n_%s.go" % n, "decls": [gen_iface(rng, tag + "B")]}]})
     return pk
 
@@ -181,6 +219,17 @@ def gen_config(rng, tree, nested=False, formatter=None):
         else:
             plc = PLACEMENTS[pl]
         c = cfg(**plc)
+        # relative spellings of the output directory next to the absolute default (the run's cwd is
+        # the directory of the config file): templated, literal, literal with a detour
+        if pl in INPKG_NONTEST or pl in ("inpkg_test", "inpkg_test2", "sub", "sub_per_iface"):
+            suffix = "/mocks" if pl in ("sub", "sub_per_iface") else ""
+            r = rng.random()
+            if r < 0.3:
+                c["dir"] = ("iface", suffix, "{{.InterfaceDirRelative}}" + suffix)
+                hist["relative_dir"] = hist.get("relative_dir", 0) + 1
+            elif r < 0.5 and not is_root:
+                c["dir"] = ("fixed", p + suffix, rng.choice(["./%s%s", "%s/../%s%s" % (p, "%s", "%s"), "%s%s"]) % (p, suffix))
+                hist["relative_dir"] = hist.get("relative_dir", 0) + 1
         data = {}
         if is_root:
             c["rec"], c["all"] = True, True
@@ -267,7 +316,11 @@ def yaml_of_cfg(c, extra=None):
     if c["all"] is not None: o["all"] = c["all"]
     if c["force"] is not None: o["force-file-write"] = c["force"]
     if c["dir"] is not None:
-        o["dir"] = ("{{.InterfaceDir}}" + c["dir"][1]) if c["dir"][0] == "iface" else c["dir"][1]
+        d = c["dir"]
+        if len(d) > 2:                     # (kind, cleaned value for the model, spelling in the file)
+            o["dir"] = d[2]
+        else:
+            o["dir"] = ("{{.InterfaceDir}}" + d[1]) if d[0] == "iface" else d[1]
     if c["file"] is not None:
         f = c["file"]
         o["filename"] = f[1] if f[0] == "fixed" else (f[1] + ("{{.InterfaceName}}" if f[0] == "iface" else "{{.SrcPackageName}}") + f[2])
@@ -385,6 +438,9 @@ def materialize(ctx, case, d):
         (d / tp["path"]).mkdir(parents=True, exist_ok=True)
         for f in tp["files"]:
             (d / tp["path"] / f["name"]).write_text(go_source(tp["name"], f["decls"]))
+    for rel, (pname, _, body) in HELPERS.items():
+        (d / rel).mkdir(parents=True, exist_ok=True)
+        (d / rel / "types.go").write_text("package %s\n\n%s" % (pname, body))
     for rel, f in case["tpl"].items():
         (d / "tpl" / rel).write_text(C12.PROBE_OK if f["kind"] == "template" else json.dumps(f["schema"]))
     (d / ".mockery.yml").write_text(yaml_cfg(case))
